@@ -194,15 +194,7 @@ func NewPair(handler grpc.StreamHandler, sopts []grpc.ServerOption, dopts []grpc
 	dbase := []grpc.DialOption{
 		grpc.WithTransportCredentials(insecure.NewCredentials()),
 		grpc.WithContextDialer(func(ctx context.Context, _ string) (net.Conn, error) {
-			// memconn.Listener.Dial creates the pipe and queues the server end;
-			// the hooks must be in place before either side writes, so the pipe
-			// is made here and handed to the listener's queue by Dial's twin.
-			tc := p.Tap.newConn()
-			c, err := p.dialTapped(tc)
-			if err != nil {
-				return nil, err
-			}
-			return c, nil
+			return p.dialTapped(p.Tap.newConn())
 		}),
 		grpc.WithDefaultCallOptions(grpc.ForceCodec(wire.RawCodec{})),
 	}
@@ -215,13 +207,11 @@ func NewPair(handler grpc.StreamHandler, sopts []grpc.ServerOption, dopts []grpc
 	return p, nil
 }
 
-// dialTapped calls listener.Dial() and installs the client-side hook on the
-// returned end.  The server end is hooked by wrapping: the server writes
-// nothing before it has read the client preface... except its own SETTINGS,
-// which grpc's server transport writes right after accepting.  To catch those
-// too the server side is observed from the client's *read* side instead: every
-// byte the server writes is a byte the client end reads, so the client end is
-// wrapped in a reader tee.
+// dialTapped calls listener.Dial() and taps both directions at the client end:
+// client->server through memconn's WriteHook (bytes are recorded before they are
+// queued), server->client through a tee on Read (every byte the server wrote is
+// a byte the client transport's reader consumes; at a quiescent point it has
+// consumed all of them).
 func (p *Pair) dialTapped(tc *tapConn) (net.Conn, error) {
 	c, err := p.L.Dial()
 	if err != nil {
